@@ -5,6 +5,7 @@ From Coq Require Import ZArith List Bool String.
 From VQ Require Import Num Model.Vec Model.Core Model.Machine Proofs.CorePure Glue.CoreGlue.
 From VQ Require Import Glue.Pin_w_euclid Glue.Pin_w_cosine Glue.Pin_w_vq Glue.Pin_w_fsq Glue.Pin_w_lfq Glue.Pin_w_simvq Glue.Pin_w_rpq Glue.Pin_w_rvq Glue.Pin_w_rfsq Glue.Pin_w_rlfq Glue.Pin_w_rsvq Glue.Pin_w_lq Glue.Pin_o_rpq_eval.
 From VQ Require Import Model.History Proofs.HistoryProofs.
+From VQ Require Import Glue.Pin_fp_C08.
 Import ListNotations.
 
 Theorem C08_call_pure :
@@ -285,3 +286,8 @@ Theorem C08_history_with_writes_ignores_pure :
        @hrun F o fsqrt cfg s (@filter (hop F) (fun h : hop F => negb (@hop_pure F h)) hs).
 Proof. exact (@HistoryProofs.history_ignores_pure). Qed.
 Print Assumptions C08_history_with_writes_ignores_pure.
+
+Theorem C08_tie_source_footprint :
+  fp_C08.fp_C08 = pinned_fp_C08.
+Proof. exact (@Pin_fp_C08.pin_fp_C08). Qed.
+Print Assumptions C08_tie_source_footprint.
